@@ -417,6 +417,19 @@ func registerStringIntrinsics(reg func(string, intrinsicFn)) {
 		return notHandled
 	})
 	reg("strconv.ParseInt", func(w *World, th *Thread, fn *ssa.Function, args []Value) Value {
+		if t, ok := args[0].(*Term); ok {
+			if org, ok := w.fmtOriginS[t.S]; ok {
+				var v Value = org
+				if org.Sort.W < 64 {
+					v = w.convInt(org, intInfo{org.Sort.W, true}, intInfo{64, true})
+				}
+				return Tuple{v, Iface{}}
+			}
+			if org, ok := w.fmtOrigin[t.S]; ok && org.Sort.W < 64 {
+				return Tuple{w.convInt(org, intInfo{org.Sort.W, false}, intInfo{64, true}), Iface{}}
+			}
+			panic(w.unsupported("strconv.ParseInt on a symbolic string of unknown origin"))
+		}
 		if s, ok := normStr(args[0]).(string); ok {
 			b, ok1 := args[1].(int64)
 			bs, ok2 := args[2].(int64)
